@@ -57,6 +57,10 @@ def certificate(P, alpha, y, x, depth=0, tol=None):
         return False, name + ":nonfinite", "non-finite result for finite input"
     sc = _scale(y, x)
     eps = tol * sc
+    # round-off level of values obtained by arithmetic on data of magnitude sc: entries
+    # below it count as zero when a support is identified (1e-12 leaves 1e3..1e4 eps of
+    # head-room and still resolves features 1e-10 * sc small)
+    rz = (1e-12 if tol < 1e-6 else 1e-5) * sc
     cls = type(P)
 
     if cls is SP.NoOp:
@@ -73,7 +77,7 @@ def certificate(P, alpha, y, x, depth=0, tol=None):
         ax = np.abs(x)
         # entries at round-off level count as zeros (the certified point may come out of
         # arithmetic in a nesting: exact zeros become 1e-16)
-        nz = ax > eps * 10
+        nz = ax > rz
         r = y - x
         tt = np.broadcast_to(t, y.shape)
         bad1 = np.abs(r[nz] - tt[nz] * x[nz] / ax[nz])
@@ -134,6 +138,8 @@ def certificate(P, alpha, y, x, depth=0, tol=None):
 
     if cls is SP.L1Proj:
         e_ = float(P.epsilon)
+        if e_ < 100 * rz * y.size:
+            return None, "L1Proj:unresolvable", ""   # ball smaller than the data's round-off
         n1y = float(np.sum(np.abs(y)))
         n1x = float(np.sum(np.abs(x)))
         if n1x > e_ * (1 + 1e-9) + eps * y.size:
@@ -148,7 +154,7 @@ def certificate(P, alpha, y, x, depth=0, tol=None):
                 "infeasible input projected strictly inside: ||x||_1 = %.6g, eps = %.6g" % (
                     n1x, e_)
         ax, ay = np.abs(x), np.abs(y)
-        nz = ax > eps * 10
+        nz = ax > rz
         if not nz.any():
             return (e_ <= eps), "L1Proj:allzero", "all-zero projection with eps>0"
         th = ay[nz] - ax[nz]
@@ -156,7 +162,7 @@ def certificate(P, alpha, y, x, depth=0, tol=None):
         e1 = float(np.max(np.abs(th - theta)))
         ph = float(np.max(np.abs(x[nz] / ax[nz] - y[nz] / ay[nz])))
         e0 = float(np.max(ay[~nz] - theta)) if (~nz).any() else 0.0
-        ok = theta >= -eps and e1 <= eps * 10 and ph <= 1e-7 and e0 <= eps * 10
+        ok = theta >= -eps and e1 <= eps * 10 and ph <= max(1e-7, 10 * tol) and e0 <= eps * 10
         return ok, "L1Proj:boundary", "" if ok else (
             "not a soft-threshold of the input: theta=%.6g spread=%.3g phase=%.3g zeros=%.3g"
             % (theta, e1, ph, e0))
